@@ -1628,6 +1628,9 @@ class EffectDomain(DefaultDomain):
             return out
         if isinstance(call.func, ast.Attribute) and isinstance(call.func.value, ast.Name) and st.get(fr.local(call.func.value.id), None) == NONE:
             return [exc(("exc", "AttributeError"), st)]   # None.<method>(...)
+        if isinstance(call.func, ast.Attribute) and isinstance(call.func.value, ast.Attribute) and attr_chain(call.func.value) and fr.selfname and attr_chain(call.func.value)[0] == fr.selfname \
+                and len(attr_chain(call.func.value)) == 2 and st.get(fr.self_key + "." + call.func.value.attr, None) == NONE:
+            return [exc(("exc", "AttributeError"), st)]   # self.x.<method>(...) with self.x None
         if self.track(d) or d in self.results or d in self.raises:
             out = []
             pos = [a.value if isinstance(a, ast.Starred) else a for a in call.args]
